@@ -77,6 +77,8 @@ def _before_table(ctx: Ctx, f: Func) -> Dict[str, str]:
                 acts.append((n, "L.insert(0, node)"))
             elif match("before", i) is not None:
                 acts.append((n, "L.insert(before, node)"))
+            elif (m_ := match("len($$L2)", i)) is not None and is_L(m_["$$L2"]):
+                acts.append((n, "L.append(node)"))  # insert at the end
             else:
                 iv = i
                 if isinstance(i, ast.Name):
@@ -114,6 +116,10 @@ def _before_table(ctx: Ctx, f: Func) -> Dict[str, str]:
                 pos.append("before")
             elif _direct_operand(e, "before"):
                 pos.append(norm(e))
+        if "L is None" in pos:
+            pos = ["L is None"]  # the first child: every position means the same
+        if "before is True" in pos and "isinstance(before, int)" in pos:
+            pos.remove("isinstance(before, int)")  # True is an int: the narrower case names the branch
         key = pos[0] if len(pos) == 1 else ("else" if not pos else " and ".join(sorted(pos)))
         if key in table and table[key] != act:
             table[key] = table[key] + " | " + act
